@@ -1,2 +1,131 @@
-/-! line-protocol driver for property C08 (stub) -/
-def main (_args : List String) : IO Unit := pure ()
+import MirVerif.Model.Layout
+import MirVerif.Model.Classify
+/-! line-protocol driver for property C08 (`mirdrv_c08`)
+
+```
+layout <type>                 ->  L c2m <size> <align> <m,..> | sysv <size> <align> <m,..> | wf=.. nobf=.. simple=..
+class <type>                  ->  C c2m <cls> | sysv <cls> | aligned=..
+proto <ret|void> ; <t> ; ...  ->  P c2m <ret> <arg> ... | sysv <ret> <arg> ...
+merge                         ->  6x6 table of c2mMerge over N I S X U M, row-major
+```
+type syntax (prefix): scalar name | `A n T` | `S m* .` | `U m* .`;  member m: `p T` | `b w named T` | `a T`.
+member output: `bitpos:nbits` of every nameable member (through anonymous members), declaration order.
+-/
+open MirVerif.Layout MirVerif.Classify
+
+def scOfName : String → Option Sc
+  | "bool" => some .bool | "char" => some .char | "schar" => some .schar | "uchar" => some .uchar
+  | "short" => some .short | "ushort" => some .ushort | "int" => some .int | "uint" => some .uint
+  | "long" => some .long | "ulong" => some .ulong | "llong" => some .llong | "ullong" => some .ullong
+  | "float" => some .float | "double" => some .double | "ldouble" => some .ldouble
+  | "ptr" => some .ptr | "enum4" => some .enum4 | "enum8" => some .enum8
+  | _ => none
+
+mutual
+partial def parseTy : List String → Option (CTy × List String)
+  | "A" :: n :: rest => do
+    let (t, r) ← parseTy rest
+    pure (.arr n.toNat! t, r)
+  | "S" :: rest => do
+    let (ms, r) ← parseMems rest
+    pure (.agg false ms, r)
+  | "U" :: rest => do
+    let (ms, r) ← parseMems rest
+    pure (.agg true ms, r)
+  | s :: rest => do
+    let sc ← scOfName s
+    pure (.sc sc, rest)
+  | [] => none
+partial def parseMems : List String → Option (Mems × List String)
+  | "." :: rest => some (.nil, rest)
+  | "p" :: rest => do
+    let (t, r) ← parseTy rest
+    let (ms, r') ← parseMems r
+    pure (.cons .plain t ms, r')
+  | "a" :: rest => do
+    let (t, r) ← parseTy rest
+    let (ms, r') ← parseMems r
+    pure (.cons .anon t ms, r')
+  | "b" :: w :: nm :: rest => do
+    let (t, r) ← parseTy rest
+    let (ms, r') ← parseMems r
+    pure (.cons (.bf w.toNat! (nm == "1")) t ms, r')
+  | _ => none
+end
+
+def showMems (ps : List Place) : String :=
+  if ps.isEmpty then "-" else ",".intercalate (ps.map fun p => s!"{p.bitpos}:{p.nbits}")
+
+def showLay (L : CTy → Lay) (t : CTy) : String :=
+  let l := L t
+  s!"{l.size} {l.align} {showMems (flatMems L t)}"
+
+def showCls : Cls → String
+  | .no => "N" | .int => "I" | .sse => "S" | .x87 => "X" | .x87up => "U" | .mem => "M"
+
+def showClsList (cs : List Cls) : String :=
+  if cs.isEmpty then "-" else String.join (cs.map showCls)
+
+def showArgLoc : ArgLoc → String
+  | .stack => "M"
+  | .regs cs => showClsList cs
+
+def showRetLoc : Option RetLoc → String
+  | none => "void"
+  | some .sret => "M"
+  | some (.regs cs) => showClsList cs
+
+def b01 (b : Bool) : String := if b then "1" else "0"
+
+def splitOnTok (l : List String) (sep : String) : List (List String) :=
+  let r := l.foldl (fun (acc : List (List String) × List String) s =>
+    if s == sep then (acc.2.reverse :: acc.1, []) else (acc.1, s :: acc.2)) ([], [])
+  (r.2.reverse :: r.1).reverse
+
+def step (toks : List String) : String :=
+  match toks with
+  | "layout" :: rest =>
+    match parseTy rest with
+    | some (t, []) =>
+      s!"L c2m {showLay c2mLay t} | sysv {showLay sysvLay t} | wf={b01 t.wf} nobf={b01 t.noBf} simple={b01 t.bfSimple}"
+    | _ => "ERR parse"
+  | "class" :: rest =>
+    match parseTy rest with
+    | some (t, []) =>
+      let c := match c2mClassify t with | none => "M" | some cs => showClsList cs
+      let valid := match c2mClassify t with | none => true | some cs => validCls cs
+      s!"C c2m {c} | sysv {showClsList (sysvClass sysvLay t)} | aligned={b01 (clsAligned t)} valid={b01 valid} nobf={b01 t.noBf}"
+    | _ => "ERR parse"
+  | "proto" :: rest =>
+    let parts := splitOnTok rest ";"
+    match parts with
+    | retToks :: argToks =>
+      let ret : Option (Option CTy) :=
+        if retToks == ["void"] then some none
+        else match parseTy retToks with | some (t, []) => some (some t) | _ => none
+      let args := argToks.map fun a => match parseTy a with | some (t, []) => some t | _ => none
+      if ret.isNone || args.any (·.isNone) then "ERR parse"
+      else
+        let ret := ret.get!
+        let args := args.map (·.get!)
+        let c := c2mProto ret args
+        let s := sysvProto sysvLay ret args
+        let sh := fun (r : Option RetLoc × List ArgLoc) =>
+          " ".intercalate (showRetLoc r.1 :: r.2.map showArgLoc)
+        let cok := countersOk { nI := if ret.map c2mRet = some .sret then 1 else 0 } args
+        s!"P c2m {sh c} | sysv {sh s} | cok={b01 cok}"
+    | _ => "ERR parse"
+  | ["merge"] =>
+    let cs : List Cls := [.no, .int, .sse, .x87, .x87up, .mem]
+    String.join (cs.flatMap fun a => cs.map fun b => showCls (c2mMerge a b))
+  | [] => ""
+  | _ => "ERR cmd"
+
+partial def loop (h : IO.FS.Stream) : IO Unit := do
+  let line ← h.getLine
+  if line.isEmpty then return ()
+  let toks := (line.trimAscii.toString.splitOn " ").filter (· ≠ "")
+  IO.println (step toks)
+  loop h
+
+def main (_args : List String) : IO Unit := do loop (← IO.getStdin)
